@@ -589,6 +589,16 @@ class LangServer:
             else:
                 include_globals = False
                 scope_list = [type_scope]
+                # PRIVATE components and bindings are only accessible in the
+                # module that defines the type
+
+                def get_top_scope(scope):
+                    while (scope is not None) and (scope.parent is not None):
+                        scope = scope.parent
+                    return scope
+
+                if get_top_scope(type_scope) is not get_top_scope(curr_scope):
+                    public_only = True
         else:
             scope_list = file_obj.ast.get_scopes(ac_line + 1)
         # Setup based on context
